@@ -18,10 +18,11 @@ const (
 	SInt
 	SStr   // concrete strings only (C is always set); symbolic strings are *StrV
 	SFloat // (_ FloatingPoint 11 53)
+	SFInt  // a float64 whose value is an integer: E is an Int-sorted term holding the exact value
 )
 
 func (s Sort) String() string {
-	return [...]string{"Bool", "Int", "String", "(_ FloatingPoint 11 53)"}[s]
+	return [...]string{"Bool", "Int", "String", "(_ FloatingPoint 11 53)", "Int"}[s]
 }
 
 // Term is an SMT term; C holds the concrete value when known (bool, int64, string, float64).
@@ -135,10 +136,16 @@ func tIte(c, a, b *Term) *Term {
 	return app(a.S, "ite", c, a, b)
 }
 func tEq(a, b *Term) *Term {
-	if a.IsConc() && b.IsConc() {
+	if a.IsConc() && b.IsConc() && a.S != SFloat {
 		return mkBool(a.C == b.C)
 	}
+	if a.S == SFInt || b.S == SFInt {
+		return fintCmp("=", a, b)
+	}
 	if a.S == SFloat {
+		if a.IsConc() && b.IsConc() {
+			return mkBool(a.C.(float64) == b.C.(float64))
+		}
 		return app(SBool, "fp.eq", a, b)
 	}
 	if a.E == b.E {
